@@ -6,6 +6,7 @@ PROPS = {
     "C10": {
         "families": {"tx": 12000},
         "br_monitor": 3000,
+        "tagged_monitors": {"TXS": 20000},
         "assumptions": [
             "the Instructions sysvar lists exactly the top-level instructions of the transaction and the runtime executes them in order, atomically (Solana runtime; reproduced by the harness: real sysvar serialization, snapshot/rollback)",
             "programs on the allowed list (compute budget, Kamino, Drift, Jupiter, Titan, associated token) do not CPI into marginfi on the account in receivership; validate_instructions only sees top-level instructions (the source says so itself); start and end themselves are proved non-CPI (stack height + sysvar program id)",
@@ -16,6 +17,7 @@ PROPS = {
     "C11": {
         "families": {"tx": 12000},
         "br_monitor": 3000,
+        "tagged_monitors": {"TXS": 20000},
         "assumptions": [
             "same runtime assumptions as C10 (Instructions sysvar, in-order atomic execution, Anchor dispatch)",
             "the initial-margin check run by end_flashloan is the risk engine of C04 (an oracle here); that it is RUN, last, after the flag is cleared, is a theorem over the regenerated handler skeleton",
